@@ -107,7 +107,7 @@ def s_cases_g(g, n, cfgs, part):
 
 
 # ---------------------------------------------------------------- family X
-X_CHARS = ["a", " ", "\n", "\t", "{", "}", "!", "%", "#", "\"", "'", "\\", "é", "<pre>"]
+X_CHARS = ["a", " ", "\n", "\t", "{", "}", "!", "%", "#", "\"", "'", "\\", "é", "<pre>", "\r\n"]
 X_TAGS = [("lit", "{{"), ("lit", "{%"), ("lit", "{#"), ("expr", "s", ""), ("expr", "n", " "),
           ("cmt", "#", "{{ s }}{% end %}"), ("cmt", "%", " {{ s }} {# "),
           ("whitespace", "single"), ("whitespace", "oneline"), ("whitespace", "all"),
